@@ -15,6 +15,9 @@ inductive Val where
   | num (q : Rat)
   | str (s : String)
   | cplx (re im : Rat)
+  /-- `float('inf')`: the only non-finite value the code base itself produces (an open switch is
+  `resistor(R=inf)`, SimpleCircuit/CircuitComponentTranslators.py:165) -/
+  | inf
 deriving DecidableEq, Repr
 
 /-- `Circuit/components.py: Component` (frozen dataclass): type, id, nodes, value -/
